@@ -1,3 +1,3 @@
 SPECIFICATION Spec
-INVARIANTS InsideFindsItsTile OutsideFindsNoTile CornerWhereDocumentSays BBoxSpansCorners TileInMatrix
+INVARIANTS InsideFindsItsTile OutsideFindsNoTile CornerWhereDocumentSays BBoxSpansCorners TileInMatrix MatrixIsTheOneNamed
 CHECK_DEADLOCK FALSE
